@@ -7,7 +7,7 @@ from sa.astx import body_walk, call_attr, call_name, dotted, src
 from sa.effects import class_accesses
 from sa.selftest import Mutant, Silent
 from sa.source import AnalysisError, methods
-from sa.props._lib_c import (EvalAssert, EvalUnsupported, Interp, SelfRef, all_funcs_of_class, assign_pairs, guarded_not_none,
+from sa.props._lib_c import (anchor, section, EvalAssert, EvalUnsupported, Interp, SelfRef, all_funcs_of_class, assign_pairs, guarded_not_none,
                              gfind, is_const, is_none_test, must_pass, nested_defs, no_exc, self_attr)
 
 PROPERTY = "C10"
@@ -22,7 +22,7 @@ EXPLANATION = (
     "the errback always fires, the success callback fires on the not-running branch, stop() cancels and fires only when a call "
     "is pending, start() returns the local it stored; (c) cadence - the time handed to _scheduleFrom is a clock reading taken at "
     "completion, and the delay computed by _scheduleFrom and the counts produced by withCount's counter are evaluated over a "
-    "finite dyadic domain (incl. a large-exponent absorption case) against the boundary oracle. Not decided: floating-point "
+    "finite dyadic domain (incl. a large-exponent absorption case; counter histories include a first call that is 2..7 intervals late, for now=True and now=False, with the sum-of-counts oracle measured from start()) against the boundary oracle. Not decided: floating-point "
     "behaviour for non-dyadic intervals, restart / reset interaction with the skip counter, the clock implementation."
 )
 ASSUMPTIONS = [
@@ -87,310 +87,329 @@ def check(ctx):
     mod = ctx.mod(TASK)
     cls = ctx.cls(TASK, "LoopingCall")
     meths = methods(cls)
-    f_call = ctx.func(TASK, "LoopingCall.__call__")
-    f_start = ctx.func(TASK, "LoopingCall.start")
-    f_stop = ctx.func(TASK, "LoopingCall.stop")
-    f_reset = ctx.func(TASK, "LoopingCall.reset")
-    f_sched = ctx.func(TASK, "LoopingCall._scheduleFrom")
-    f_wc = ctx.func(TASK, "LoopingCall.withCount")
+    f_call = anchor(ctx, TASK, "LoopingCall.__call__")
+    f_start = anchor(ctx, TASK, "LoopingCall.start")
+    f_stop = anchor(ctx, TASK, "LoopingCall.stop")
+    f_reset = anchor(ctx, TASK, "LoopingCall.reset")
+    f_sched = anchor(ctx, TASK, "LoopingCall._scheduleFrom")
+    f_wc = anchor(ctx, TASK, "LoopingCall.withCount")
     funcs = all_funcs_of_class(cls)
-    nested, cbs, ebs, md_calls = _registrations(f_call)
+    nested, cbs, ebs, md_calls = {}, set(), set(), []
+    with section(ctx, "callbacks registered by __call__"):
+        nested, cbs, ebs, md_calls = _registrations(f_call)
     cb_quals = {f"LoopingCall.__call__.{n}" for n in cbs}
     eb_quals = {f"LoopingCall.__call__.{n}" for n in ebs}
 
     # ---- (a) the function is called only through maybeDeferred, with the stored arguments ---------------
-    qc = f"{Q}.__call__"
-    ctx.check(len(md_calls) == 1, "call/through-maybeDeferred", qc,
-              f"__call__ contains {len(md_calls)} maybeDeferred(...) call sites (exactly one expected): a raising f would not be turned into a failure")
-    for c in md_calls:
-        ok = (c.args and self_attr(c.args[0], "f") and any(isinstance(a, ast.Starred) and self_attr(a.value, "a") for a in c.args[1:])
-              and any(k.arg is None and self_attr(k.value, "kw") for k in c.keywords))
-        ctx.check(ok, "call/through-maybeDeferred", ctx.construct(qc, c), "maybeDeferred is not applied to self.f with *self.a, **self.kw")
-    for q, f in funcs:
-        for c in body_walk(f):
-            if isinstance(c, ast.Call) and self_attr(c.func, "f"):
-                ctx.violation("call/through-maybeDeferred", ctx.construct(f"twisted.internet.task.{q}", c),
-                              "self.f is called directly: an exception propagates instead of failing start()'s Deferred, and a returned Deferred is not awaited")
-    ctx.check(bool(cbs), "call/callbacks-registered", qc + " | <success callback>",
-              "no nested function is registered as success callback on maybeDeferred's result: the loop never continues")
-    ctx.check(bool(ebs), "call/callbacks-registered", qc + " | <failure callback>",
-              "no nested function is registered as errback on maybeDeferred's result: a failing f never fires start()'s Deferred")
-    g = ctx.cfg(f_call)
-    clear = g.ids(lambda n: n.kind == "stmt" and any(self_attr(t, "call") and is_const(v, None) for t, v in assign_pairs(n.ast)))
-    mdn = gfind(g, lambda x: any(x is c for c in md_calls))
-    w = g.must_precede(clear, mdn) if mdn else None
-    ctx.check(bool(clear) and w is None, "call/clears-call-before-f", qc,
-              "self.call is not reset to None before f runs: stop()/reset() issued by f (or by the synchronous callback chain) would "
-              "cancel a stale DelayedCall, and a synchronously rescheduled call would be forgotten", witness=g.describe(w))
+    with section(ctx, '(a) the function is called only through maybeDeferred, with the stored arguments'):
+        qc = f"{Q}.__call__"
+        ctx.check(len(md_calls) == 1, "call/through-maybeDeferred", qc,
+                  f"__call__ contains {len(md_calls)} maybeDeferred(...) call sites (exactly one expected): a raising f would not be turned into a failure")
+        for c in md_calls:
+            ok = (c.args and self_attr(c.args[0], "f") and any(isinstance(a, ast.Starred) and self_attr(a.value, "a") for a in c.args[1:])
+                  and any(k.arg is None and self_attr(k.value, "kw") for k in c.keywords))
+            ctx.check(ok, "call/through-maybeDeferred", ctx.construct(qc, c), "maybeDeferred is not applied to self.f with *self.a, **self.kw")
+        for q, f in funcs:
+            for c in body_walk(f):
+                if isinstance(c, ast.Call) and self_attr(c.func, "f"):
+                    ctx.violation("call/through-maybeDeferred", ctx.construct(f"twisted.internet.task.{q}", c),
+                                  "self.f is called directly: an exception propagates instead of failing start()'s Deferred, and a returned Deferred is not awaited")
+        ctx.check(bool(cbs), "call/callbacks-registered", qc + " | <success callback>",
+                  "no nested function is registered as success callback on maybeDeferred's result: the loop never continues")
+        ctx.check(bool(ebs), "call/callbacks-registered", qc + " | <failure callback>",
+                  "no nested function is registered as errback on maybeDeferred's result: a failing f never fires start()'s Deferred")
+        g = ctx.cfg(f_call)
+        clear = g.ids(lambda n: n.kind == "stmt" and any(self_attr(t, "call") and is_const(v, None) for t, v in assign_pairs(n.ast)))
+        mdn = gfind(g, lambda x: any(x is c for c in md_calls))
+        w = g.must_precede(clear, mdn) if mdn else None
+        ctx.check(bool(clear) and w is None, "call/clears-call-before-f", qc,
+                  "self.call is not reset to None before f runs: stop()/reset() issued by f (or by the synchronous callback chain) would "
+                  "cancel a stale DelayedCall, and a synchronously rescheduled call would be forgotten", witness=g.describe(w))
 
     # ---- (a) who may (re)schedule -------------------------------------------------------------------------
-    nsites = 0
-    for q, f in funcs:
-        if isinstance(f, ast.Lambda):
-            sites = [c for c in ast.walk(f.body) if _is_call_to(c, "self._scheduleFrom")]
-            for c in sites:
-                nsites += 1
-                ctx.violation("no-overlap/reschedule-site", ctx.construct(f"twisted.internet.task.{q}", c), "_scheduleFrom called from a lambda")
-            continue
-        gf = ctx.cfg(f)
-        fq = f"twisted.internet.task.{q}"
-        for n in gfind(gf, lambda x: _is_call_to(x, "self._scheduleFrom")):
-            nsites += 1
-            node = gf.node(n).ast
-            call = next(x for x in ast.walk(node) if _is_call_to(x, "self._scheduleFrom"))
-            key = ctx.construct(fq, node)
-            if q == "LoopingCall.start":
-                ctx.check(gf.guarded(n, lambda e: src(e) == "now", False), "no-overlap/reschedule-site", key,
-                          "start() schedules the first delayed call even when it also calls the function immediately (two calls in flight)")
-            elif q == "LoopingCall.reset":
-                cancels = gfind(gf, lambda x: _is_call_to(x, "self.call.cancel"))
-                w = gf.must_precede(cancels, [n])
-                ctx.check(guarded_not_none(gf, n, "self.call") and bool(cancels) and w is None, "no-overlap/reschedule-site", key,
-                          "reset() schedules a new call without a pending call having been cancelled (while f's Deferred is unfired, or twice)",
-                          witness=gf.describe(w))
-            elif q in cb_quals and q not in eb_quals:
-                ctx.check(gf.guarded(n, lambda e: src(e) == "self.running", True), "no-overlap/reschedule-site", key,
-                          "the completion callback reschedules although the loop was stopped")
-            else:
-                ctx.violation("no-overlap/reschedule-site", key,
-                              "_scheduleFrom is called outside start / reset / the completion callback: the next call is "
-                              "scheduled while the previous call's Deferred may still be unfired")
-            # reference time handed to _scheduleFrom
-            arg = call.args[0] if call.args else None
-            ok = False
-            why = "the time passed to _scheduleFrom is not a clock reading taken in this function"
-            if arg is not None and _clock_read(arg):
-                ok = True
-            elif arg is not None and (self_attr(arg, "starttime") or isinstance(arg, ast.Name)):
-                def is_def(nd, arg=arg):
-                    return nd.kind == "stmt" and any(src(t) == src(arg) and _clock_read(v) for t, v in assign_pairs(nd.ast))
-                defs = gf.ids(is_def)
-                w = gf.must_precede(defs, [n]) if defs else None
-                ok = bool(defs) and w is None
-                if q in cb_quals:
-                    ok = ok and isinstance(arg, ast.Name)  # a local read inside the callback, i.e. at completion time
-            ctx.check(ok, "cadence/reference-time", key,
-                      why + " (after f completed): the next boundary would be computed from a stale time and calls drift or bunch up")
-    ctx.floor("no-overlap/reschedule-site", nsites, 1)
-    # liveness of the three legitimate sites: the loop continues where it must
-    def _sched_nodes(gx):
-        return gfind(gx, lambda x: _is_call_to(x, "self._scheduleFrom"))
-    gs = ctx.cfg(f_start)
-    for t in gs.ids(lambda n: n.kind == "test" and src(n.ast) == "now"):
-        w = must_pass(gs, [d for d, l in gs.succ[t] if l == "F"], _sched_nodes(gs), exc=False)
-        ctx.check(w is None, "cadence/loop-continues", f"{Q}.start | <now=False>", "start(now=False) can return without scheduling the first call", witness=gs.describe(w))
-        selfcalls = gfind(gs, lambda x: isinstance(x, ast.Call) and isinstance(x.func, ast.Name) and x.func.id == "self")
-        w = must_pass(gs, [d for d, l in gs.succ[t] if l == "T"], selfcalls, exc=False)
-        ctx.check(w is None, "cadence/loop-continues", f"{Q}.start | <now=True>", "start(now=True) can return without calling the function", witness=gs.describe(w))
-    gr = ctx.cfg(f_reset)
-    for t in [t for t in gr.ids(lambda n: n.kind == "test") if is_none_test(gr.node(t).ast, "self.call") is not None]:
-        lab = "F" if is_none_test(gr.node(t).ast, "self.call") else "T"
-        w = must_pass(gr, [d for d, l in gr.succ[t] if l == lab], _sched_nodes(gr), exc=False)
-        ctx.check(w is None, "cadence/loop-continues", f"{Q}.reset", "reset() with a pending call cancels it without scheduling a new one: the loop silently ends",
-                  witness=gr.describe(w))
-    for n_ in sorted(cbs - ebs):
-        gc = ctx.cfg(nested[n_])
-        for t in gc.ids(lambda n: n.kind == "test" and src(n.ast) == "self.running"):
-            w = must_pass(gc, [d for d, l in gc.succ[t] if l == "T"], _sched_nodes(gc), exc=False)
-            ctx.check(w is None, "cadence/loop-continues", f"{Q}.__call__.{n_}", "a completed call of a running loop is not followed by the next one", witness=gc.describe(w))
-    for q, f in funcs:
-        for c in (body_walk(f) if not isinstance(f, ast.Lambda) else ast.walk(f.body)):
-            if not isinstance(c, ast.Call):
+    with section(ctx, '(a) who may (re)schedule'):
+        nsites = 0
+        for q, f in funcs:
+            if isinstance(f, ast.Lambda):
+                sites = [c for c in ast.walk(f.body) if _is_call_to(c, "self._scheduleFrom")]
+                for c in sites:
+                    nsites += 1
+                    ctx.violation("no-overlap/reschedule-site", ctx.construct(f"twisted.internet.task.{q}", c), "_scheduleFrom called from a lambda")
                 continue
-            if call_attr(c) == "callLater" and any(isinstance(a, ast.Name) and a.id == "self" for a in c.args):
-                ctx.check(q == "LoopingCall._scheduleFrom", "no-overlap/callLater-site", ctx.construct(f"twisted.internet.task.{q}", c),
-                          "the LoopingCall is handed to callLater outside _scheduleFrom")
-            if isinstance(c.func, ast.Name) and c.func.id == "self" and q.startswith("LoopingCall.") and q != "LoopingCall.withCount":
+            gf = ctx.cfg(f)
+            fq = f"twisted.internet.task.{q}"
+            for n in gfind(gf, lambda x: _is_call_to(x, "self._scheduleFrom")):
+                nsites += 1
+                node = gf.node(n).ast
+                call = next(x for x in ast.walk(node) if _is_call_to(x, "self._scheduleFrom"))
+                key = ctx.construct(fq, node)
                 if q == "LoopingCall.start":
-                    gs = ctx.cfg(f)
-                    ns = gs.ids_of(c)
-                    ctx.check(bool(ns) and all(gs.guarded(n, lambda e: src(e) == "now", True) for n in ns), "no-overlap/direct-call",
-                              ctx.construct(f"{Q}.start", c), "start() calls the function immediately even when now=False")
+                    ctx.check(gf.guarded(n, lambda e: src(e) == "now", False), "no-overlap/reschedule-site", key,
+                              "start() schedules the first delayed call even when it also calls the function immediately (two calls in flight)")
+                elif q == "LoopingCall.reset":
+                    cancels = gfind(gf, lambda x: _is_call_to(x, "self.call.cancel"))
+                    w = gf.must_precede(cancels, [n])
+                    ctx.check(guarded_not_none(gf, n, "self.call") and bool(cancels) and w is None, "no-overlap/reschedule-site", key,
+                              "reset() schedules a new call without a pending call having been cancelled (while f's Deferred is unfired, or twice)",
+                              witness=gf.describe(w))
+                elif q in cb_quals and q not in eb_quals:
+                    ctx.check(gf.guarded(n, lambda e: src(e) == "self.running", True), "no-overlap/reschedule-site", key,
+                              "the completion callback reschedules although the loop was stopped")
                 else:
-                    ctx.violation("no-overlap/direct-call", ctx.construct(f"twisted.internet.task.{q}", c),
-                                  "the LoopingCall invokes itself outside start()")
+                    ctx.violation("no-overlap/reschedule-site", key,
+                                  "_scheduleFrom is called outside start / reset / the completion callback: the next call is "
+                                  "scheduled while the previous call's Deferred may still be unfired")
+                # reference time handed to _scheduleFrom
+                arg = call.args[0] if call.args else None
+                ok = False
+                why = "the time passed to _scheduleFrom is not a clock reading taken in this function"
+                if arg is not None and _clock_read(arg):
+                    ok = True
+                elif arg is not None and (self_attr(arg, "starttime") or isinstance(arg, ast.Name)):
+                    def is_def(nd, arg=arg):
+                        return nd.kind == "stmt" and any(src(t) == src(arg) and _clock_read(v) for t, v in assign_pairs(nd.ast))
+                    defs = gf.ids(is_def)
+                    w = gf.must_precede(defs, [n]) if defs else None
+                    ok = bool(defs) and w is None
+                    if q in cb_quals:
+                        ok = ok and isinstance(arg, ast.Name)  # a local read inside the callback, i.e. at completion time
+                ctx.check(ok, "cadence/reference-time", key,
+                          why + " (after f completed): the next boundary would be computed from a stale time and calls drift or bunch up")
+        ctx.floor("no-overlap/reschedule-site", nsites, 1)
+
+    # ---- loop continues at the legitimate sites --------------------
+    with section(ctx, 'loop continues at the legitimate sites'):
+        # liveness of the three legitimate sites: the loop continues where it must
+        def _sched_nodes(gx):
+            return gfind(gx, lambda x: _is_call_to(x, "self._scheduleFrom"))
+        gs = ctx.cfg(f_start)
+        for t in gs.ids(lambda n: n.kind == "test" and src(n.ast) == "now"):
+            w = must_pass(gs, [d for d, l in gs.succ[t] if l == "F"], _sched_nodes(gs), exc=False)
+            ctx.check(w is None, "cadence/loop-continues", f"{Q}.start | <now=False>", "start(now=False) can return without scheduling the first call", witness=gs.describe(w))
+            selfcalls = gfind(gs, lambda x: isinstance(x, ast.Call) and isinstance(x.func, ast.Name) and x.func.id == "self")
+            w = must_pass(gs, [d for d, l in gs.succ[t] if l == "T"], selfcalls, exc=False)
+            ctx.check(w is None, "cadence/loop-continues", f"{Q}.start | <now=True>", "start(now=True) can return without calling the function", witness=gs.describe(w))
+        gr = ctx.cfg(f_reset)
+        for t in [t for t in gr.ids(lambda n: n.kind == "test") if is_none_test(gr.node(t).ast, "self.call") is not None]:
+            lab = "F" if is_none_test(gr.node(t).ast, "self.call") else "T"
+            w = must_pass(gr, [d for d, l in gr.succ[t] if l == lab], _sched_nodes(gr), exc=False)
+            ctx.check(w is None, "cadence/loop-continues", f"{Q}.reset", "reset() with a pending call cancels it without scheduling a new one: the loop silently ends",
+                      witness=gr.describe(w))
+        for n_ in sorted(cbs - ebs):
+            gc = ctx.cfg(nested[n_])
+            for t in gc.ids(lambda n: n.kind == "test" and src(n.ast) == "self.running"):
+                w = must_pass(gc, [d for d, l in gc.succ[t] if l == "T"], _sched_nodes(gc), exc=False)
+                ctx.check(w is None, "cadence/loop-continues", f"{Q}.__call__.{n_}", "a completed call of a running loop is not followed by the next one", witness=gc.describe(w))
+        for q, f in funcs:
+            for c in (body_walk(f) if not isinstance(f, ast.Lambda) else ast.walk(f.body)):
+                if not isinstance(c, ast.Call):
+                    continue
+                if call_attr(c) == "callLater" and any(isinstance(a, ast.Name) and a.id == "self" for a in c.args):
+                    ctx.check(q == "LoopingCall._scheduleFrom", "no-overlap/callLater-site", ctx.construct(f"twisted.internet.task.{q}", c),
+                              "the LoopingCall is handed to callLater outside _scheduleFrom")
+                if isinstance(c.func, ast.Name) and c.func.id == "self" and q.startswith("LoopingCall.") and q != "LoopingCall.withCount":
+                    if q == "LoopingCall.start":
+                        gs = ctx.cfg(f)
+                        ns = gs.ids_of(c)
+                        ctx.check(bool(ns) and all(gs.guarded(n, lambda e: src(e) == "now", True) for n in ns), "no-overlap/direct-call",
+                                  ctx.construct(f"{Q}.start", c), "start() calls the function immediately even when now=False")
+                    else:
+                        ctx.violation("no-overlap/direct-call", ctx.construct(f"twisted.internet.task.{q}", c),
+                                      "the LoopingCall invokes itself outside start()")
 
     # ---- _scheduleFrom shape --------------------------------------------------------------------------------------
-    qs = f"{Q}._scheduleFrom"
-    cl = [c for c in body_walk(f_sched) if isinstance(c, ast.Call) and call_attr(c) == "callLater"]
-    ctx.check(len(cl) == 1, "schedule/one-callLater", qs, f"_scheduleFrom contains {len(cl)} callLater sites (exactly one expected)")
-    for c in cl:
-        ok = len(c.args) == 2 and isinstance(c.args[1], ast.Name) and c.args[1].id == "self" and not c.keywords
-        ctx.check(ok, "schedule/one-callLater", ctx.construct(qs, c), "callLater is not given exactly (delay, self)")
-        pairs = [(t, v) for st in body_walk(f_sched) for t, v in assign_pairs(st)]
-        locs = {t.id for t, v in pairs if isinstance(t, ast.Name) and v is c}
-        stored = any(self_attr(t, "call") and (v is c or (isinstance(v, ast.Name) and v.id in locs)) for t, v in pairs)
-        ctx.check(stored, "schedule/call-remembered", ctx.construct(qs, c),
-                  "the DelayedCall is not stored in self.call: stop()/reset() cannot cancel it and a call happens after stop()")
+    with section(ctx, '_scheduleFrom shape'):
+        qs = f"{Q}._scheduleFrom"
+        cl = [c for c in body_walk(f_sched) if isinstance(c, ast.Call) and call_attr(c) == "callLater"]
+        ctx.check(len(cl) == 1, "schedule/one-callLater", qs, f"_scheduleFrom contains {len(cl)} callLater sites (exactly one expected)")
+        for c in cl:
+            ok = len(c.args) == 2 and isinstance(c.args[1], ast.Name) and c.args[1].id == "self" and not c.keywords
+            ctx.check(ok, "schedule/one-callLater", ctx.construct(qs, c), "callLater is not given exactly (delay, self)")
+            pairs = [(t, v) for st in body_walk(f_sched) for t, v in assign_pairs(st)]
+            locs = {t.id for t, v in pairs if isinstance(t, ast.Name) and v is c}
+            stored = any(self_attr(t, "call") and (v is c or (isinstance(v, ast.Name) and v.id in locs)) for t, v in pairs)
+            ctx.check(stored, "schedule/call-remembered", ctx.construct(qs, c),
+                      "the DelayedCall is not stored in self.call: stop()/reset() cannot cancel it and a call happens after stop()")
 
     # ---- (b) every fire of start()'s Deferred ------------------------------------------------------------------
-    nfires = 0
-    for q, f in funcs:
-        if isinstance(f, ast.Lambda):
-            continue
-        fq = f"twisted.internet.task.{q}"
-        aliases = {t.id for st in body_walk(f) for t, v in assign_pairs(st) if isinstance(t, ast.Name) and self_attr(v, "_deferred")}
+    with section(ctx, "(b) every fire of start()'s Deferred"):
+        nfires = 0
+        for q, f in funcs:
+            if isinstance(f, ast.Lambda):
+                continue
+            fq = f"twisted.internet.task.{q}"
+            aliases = {t.id for st in body_walk(f) for t, v in assign_pairs(st) if isinstance(t, ast.Name) and self_attr(v, "_deferred")}
 
-        def is_fire(x, aliases=aliases):
-            return (isinstance(x, ast.Call) and isinstance(x.func, ast.Attribute) and x.func.attr in ("callback", "errback")
-                    and (self_attr(x.func.value, "_deferred") or (isinstance(x.func.value, ast.Name) and x.func.value.id in aliases)))
-        gf = ctx.cfg(f)
-        fires = gfind(gf, is_fire)
-        if not fires:
-            continue
-        detach = gf.ids(lambda nd: nd.kind == "stmt" and any(self_attr(t, "_deferred") and is_const(v, None) for t, v in assign_pairs(nd.ast)))
-        notrun = gf.ids(lambda nd: nd.kind == "stmt" and any(self_attr(t, "running") and is_const(v, False) for t, v in assign_pairs(nd.ast)))
+            def is_fire(x, aliases=aliases):
+                return (isinstance(x, ast.Call) and isinstance(x.func, ast.Attribute) and x.func.attr in ("callback", "errback")
+                        and (self_attr(x.func.value, "_deferred") or (isinstance(x.func.value, ast.Name) and x.func.value.id in aliases)))
+            gf = ctx.cfg(f)
+            fires = gfind(gf, is_fire)
+            if not fires:
+                continue
+            detach = gf.ids(lambda nd: nd.kind == "stmt" and any(self_attr(t, "_deferred") and is_const(v, None) for t, v in assign_pairs(nd.ast)))
+            notrun = gf.ids(lambda nd: nd.kind == "stmt" and any(self_attr(t, "running") and is_const(v, False) for t, v in assign_pairs(nd.ast)))
+            for n in fires:
+                nfires += 1
+                node = gf.node(n).ast
+                call = next(x for x in ast.walk(node) if is_fire(x))
+                key = ctx.construct(fq, node)
+                ctx.check(q in ("LoopingCall.stop",) or q in cb_quals or q in eb_quals, "fire-once/site", key,
+                          "start()'s Deferred is fired outside stop() and the completion callbacks")
+                recv = call.func.value
+                if not isinstance(recv, ast.Name):
+                    ctx.violation("fire-once/swap", key, "self._deferred is fired in place, without first detaching it (swap with None): "
+                                  "a re-entrant stop()/failure fires it a second time (AlreadyCalledError)")
+                else:
+                    reads = gf.ids(lambda nd: nd.kind == "stmt" and any(isinstance(t, ast.Name) and t.id == recv.id and self_attr(v, "_deferred") for t, v in assign_pairs(nd.ast)))
+                    w1 = gf.must_precede(detach, [n]) if detach else [gf.entry, n]
+                    w2 = gf.must_precede(reads, detach) if detach else None
+                    ctx.check(bool(detach) and w1 is None and w2 is None, "fire-once/swap", key,
+                              "the Deferred is fired while still stored in self._deferred (not detached before the call-out): a callback "
+                              "that stops/fails the loop again fires it twice", witness=gf.describe(w1 or w2))
+                ok = gf.guarded(n, lambda e: src(e) == "self.running", False)
+                if not ok and notrun:
+                    ok = gf.must_precede(notrun, [n]) is None
+                ctx.check(ok, "fire-once/not-running", key,
+                          "start()'s Deferred fires while self.running is still True (documented: False by the time it fires; a callback could not restart the loop)")
+                if call.func.attr == "callback":
+                    ctx.check(len(call.args) == 1 and src(call.args[0]) == "self", "fire-once/result", key, "the success result is not the LoopingCall")
+                else:
+                    p = f.args.args[0].arg if f.args.args else None
+                    ctx.check(len(call.args) == 1 and isinstance(call.args[0], ast.Name) and call.args[0].id == p, "fire-once/result", key,
+                              "the errback is not fired with the failure received")
+        ctx.floor("fire-once/swap", nfires, 2)
+
+    # ---- completeness of firing --------------------
+    with section(ctx, 'completeness of firing'):
+        # completeness of firing
+        for n_ in sorted(ebs):
+            f = nested[n_]
+            gf = ctx.cfg(f)
+            fires = gfind(gf, lambda x: isinstance(x, ast.Call) and call_attr(x) == "errback")
+            w = must_pass(gf, [gf.entry], fires, exc=False)
+            ctx.check(bool(fires) and w is None, "fire-once/failure-fires", f"{Q}.__call__.{n_}",
+                      "a failure of f can leave start()'s Deferred unfired", witness=gf.describe(w))
+        for n_ in sorted(cbs - ebs):
+            f = nested[n_]
+            gf = ctx.cfg(f)
+            tests = gf.ids(lambda nd: nd.kind == "test" and src(nd.ast) == "self.running")
+            fires = gfind(gf, lambda x: isinstance(x, ast.Call) and call_attr(x) == "callback")
+            ctx.check(bool(tests), "fire-once/stopped-in-flight", f"{Q}.__call__.{n_}",
+                      "the completion callback does not test self.running: a loop stopped while f's Deferred was pending is rescheduled or never reports")
+            for t in tests:
+                fs = [d for d, l in gf.succ[t] if l == "F"]
+                w = must_pass(gf, fs, fires, exc=False)
+                ctx.check(bool(fires) and w is None, "fire-once/stopped-in-flight", f"{Q}.__call__.{n_}",
+                          "stop() issued while f's Deferred was unfired never fires start()'s Deferred", witness=gf.describe(w))
+
+    # ---- stop() --------------------
+    with section(ctx, 'stop()'):
+        # stop()
+        g = ctx.cfg(f_stop)
+        qst = f"{Q}.stop"
+        fires = gfind(g, lambda x: isinstance(x, ast.Call) and call_attr(x) == "callback")
+        cancels = gfind(g, lambda x: _is_call_to(x, "self.call.cancel"))
+        clear = g.ids(lambda n: n.kind == "stmt" and any(self_attr(t, "call") and is_const(v, None) for t, v in assign_pairs(n.ast)))
+        ctx.check(bool(fires), "stop/fires", qst, "stop() never fires start()'s Deferred")
+        ctx.check(bool(cancels), "stop/cancels-pending", qst, "stop() does not cancel the pending DelayedCall: a call happens after stop()")
         for n in fires:
-            nfires += 1
-            node = gf.node(n).ast
-            call = next(x for x in ast.walk(node) if is_fire(x))
-            key = ctx.construct(fq, node)
-            ctx.check(q in ("LoopingCall.stop",) or q in cb_quals or q in eb_quals, "fire-once/site", key,
-                      "start()'s Deferred is fired outside stop() and the completion callbacks")
-            recv = call.func.value
-            if not isinstance(recv, ast.Name):
-                ctx.violation("fire-once/swap", key, "self._deferred is fired in place, without first detaching it (swap with None): "
-                              "a re-entrant stop()/failure fires it a second time (AlreadyCalledError)")
-            else:
-                reads = gf.ids(lambda nd: nd.kind == "stmt" and any(isinstance(t, ast.Name) and t.id == recv.id and self_attr(v, "_deferred") for t, v in assign_pairs(nd.ast)))
-                w1 = gf.must_precede(detach, [n]) if detach else [gf.entry, n]
-                w2 = gf.must_precede(reads, detach) if detach else None
-                ctx.check(bool(detach) and w1 is None and w2 is None, "fire-once/swap", key,
-                          "the Deferred is fired while still stored in self._deferred (not detached before the call-out): a callback "
-                          "that stops/fails the loop again fires it twice", witness=gf.describe(w1 or w2))
-            ok = gf.guarded(n, lambda e: src(e) == "self.running", False)
-            if not ok and notrun:
-                ok = gf.must_precede(notrun, [n]) is None
-            ctx.check(ok, "fire-once/not-running", key,
-                      "start()'s Deferred fires while self.running is still True (documented: False by the time it fires; a callback could not restart the loop)")
-            if call.func.attr == "callback":
-                ctx.check(len(call.args) == 1 and src(call.args[0]) == "self", "fire-once/result", key, "the success result is not the LoopingCall")
-            else:
-                p = f.args.args[0].arg if f.args.args else None
-                ctx.check(len(call.args) == 1 and isinstance(call.args[0], ast.Name) and call.args[0].id == p, "fire-once/result", key,
-                          "the errback is not fired with the failure received")
-    ctx.floor("fire-once/swap", nfires, 2)
-
-    # completeness of firing
-    for n_ in sorted(ebs):
-        f = nested[n_]
-        gf = ctx.cfg(f)
-        fires = gfind(gf, lambda x: isinstance(x, ast.Call) and call_attr(x) == "errback")
-        w = must_pass(gf, [gf.entry], fires, exc=False)
-        ctx.check(bool(fires) and w is None, "fire-once/failure-fires", f"{Q}.__call__.{n_}",
-                  "a failure of f can leave start()'s Deferred unfired", witness=gf.describe(w))
-    for n_ in sorted(cbs - ebs):
-        f = nested[n_]
-        gf = ctx.cfg(f)
-        tests = gf.ids(lambda nd: nd.kind == "test" and src(nd.ast) == "self.running")
-        fires = gfind(gf, lambda x: isinstance(x, ast.Call) and call_attr(x) == "callback")
-        ctx.check(bool(tests), "fire-once/stopped-in-flight", f"{Q}.__call__.{n_}",
-                  "the completion callback does not test self.running: a loop stopped while f's Deferred was pending is rescheduled or never reports")
+            key = ctx.construct(qst, g.node(n).ast)
+            ctx.check(guarded_not_none(g, n, "self.call"), "stop/fires-only-if-pending", key,
+                      "stop() fires start()'s Deferred although a call is in flight (self.call is None): the completion callback fires it again / asserts")
+            w = g.must_precede(cancels, [n]) if cancels else None
+            ctx.check(bool(cancels) and w is None, "stop/cancels-pending", key, "start()'s Deferred is fired before the pending call is cancelled",
+                      witness=g.describe(w))
+            w = g.must_precede(clear, [n]) if clear else [g.entry]
+            ctx.check(bool(clear) and w is None, "stop/forgets-call", key,
+                      "self.call still refers to the cancelled DelayedCall when callbacks run (a second stop()/reset() would cancel it again: AlreadyCancelled)",
+                      witness=g.describe(w))
+        tests = [t for t in g.ids(lambda n: n.kind == "test") if is_none_test(g.node(t).ast, "self.call") is not None]
         for t in tests:
-            fs = [d for d, l in gf.succ[t] if l == "F"]
-            w = must_pass(gf, fs, fires, exc=False)
-            ctx.check(bool(fires) and w is None, "fire-once/stopped-in-flight", f"{Q}.__call__.{n_}",
-                      "stop() issued while f's Deferred was unfired never fires start()'s Deferred", witness=gf.describe(w))
-    # stop()
-    g = ctx.cfg(f_stop)
-    qst = f"{Q}.stop"
-    fires = gfind(g, lambda x: isinstance(x, ast.Call) and call_attr(x) == "callback")
-    cancels = gfind(g, lambda x: _is_call_to(x, "self.call.cancel"))
-    clear = g.ids(lambda n: n.kind == "stmt" and any(self_attr(t, "call") and is_const(v, None) for t, v in assign_pairs(n.ast)))
-    ctx.check(bool(fires), "stop/fires", qst, "stop() never fires start()'s Deferred")
-    ctx.check(bool(cancels), "stop/cancels-pending", qst, "stop() does not cancel the pending DelayedCall: a call happens after stop()")
-    for n in fires:
-        key = ctx.construct(qst, g.node(n).ast)
-        ctx.check(guarded_not_none(g, n, "self.call"), "stop/fires-only-if-pending", key,
-                  "stop() fires start()'s Deferred although a call is in flight (self.call is None): the completion callback fires it again / asserts")
-        w = g.must_precede(cancels, [n]) if cancels else None
-        ctx.check(bool(cancels) and w is None, "stop/cancels-pending", key, "start()'s Deferred is fired before the pending call is cancelled",
-                  witness=g.describe(w))
-        w = g.must_precede(clear, [n]) if clear else [g.entry]
-        ctx.check(bool(clear) and w is None, "stop/forgets-call", key,
-                  "self.call still refers to the cancelled DelayedCall when callbacks run (a second stop()/reset() would cancel it again: AlreadyCancelled)",
-                  witness=g.describe(w))
-    tests = [t for t in g.ids(lambda n: n.kind == "test") if is_none_test(g.node(t).ast, "self.call") is not None]
-    for t in tests:
-        isnone = is_none_test(g.node(t).ast, "self.call")
-        lab = "F" if isnone else "T"
-        s = [d for d, l in g.succ[t] if l == lab]
-        w = must_pass(g, s, fires, exc=False)
-        ctx.check(w is None, "stop/fires", ctx.construct(qst, g.node(t).ast), "stop() with a pending call can return without firing start()'s Deferred",
-                  witness=g.describe(w))
-    for n in cancels:
-        ctx.check(guarded_not_none(g, n, "self.call"), "stop/cancels-pending", ctx.construct(qst, g.node(n).ast),
-                  "stop() dereferences self.call while a call is in flight (None)")
+            isnone = is_none_test(g.node(t).ast, "self.call")
+            lab = "F" if isnone else "T"
+            s = [d for d, l in g.succ[t] if l == lab]
+            w = must_pass(g, s, fires, exc=False)
+            ctx.check(w is None, "stop/fires", ctx.construct(qst, g.node(t).ast), "stop() with a pending call can return without firing start()'s Deferred",
+                      witness=g.describe(w))
+        for n in cancels:
+            ctx.check(guarded_not_none(g, n, "self.call"), "stop/cancels-pending", ctx.construct(qst, g.node(n).ast),
+                      "stop() dereferences self.call while a call is in flight (None)")
 
     # ---- who may write the state ----------------------------------------------------------------------------------
-    acc = class_accesses(mod, cls, {"running", "_deferred", "call", "starttime", "interval"}, receivers={"self"})
-    for a in acc:
-        if a.via_alias:
-            continue  # `x = self.attr; x -= 1` rebinds the local, not the attribute (scalars)
-        key = ctx.construct(f"twisted.internet.task.{a.func}", a.node)
-        pairs = [(t, v) for t, v in assign_pairs(a.node) if self_attr(t, a.attr)]
-        for t, v in pairs:
-            if a.attr == "running":
-                if is_const(v, True):
-                    ctx.check(a.func == "LoopingCall.start", "who-may-write/running", key, "running set True outside start()")
-                elif is_const(v, False):
-                    ctx.check(a.func == "LoopingCall.stop" or f"{a.func}" in eb_quals, "who-may-write/running", key,
-                              "running cleared outside stop() / the failure callback")
-                else:
-                    ctx.violation("who-may-write/running", key, "running assigned a non-constant")
-            elif a.attr == "_deferred":
-                if is_const(v, None):
-                    ctx.check(a.func == "LoopingCall.stop" or a.func in cb_quals or a.func in eb_quals, "who-may-write/_deferred", key,
-                              "start()'s Deferred dropped outside the firing functions (it would never fire)")
-                else:
-                    ctx.check(a.func == "LoopingCall.start", "who-may-write/_deferred", key, "start()'s Deferred replaced outside start()")
-            elif a.attr == "call":
-                if is_const(v, None):
-                    ctx.check(a.func in ("LoopingCall.__call__", "LoopingCall.stop", "LoopingCall.reset"), "who-may-write/call", key,
-                              "self.call cleared in an unexpected place (the pending call could no longer be cancelled)")
-                else:
-                    ctx.check(a.func == "LoopingCall._scheduleFrom", "who-may-write/call", key, "self.call assigned outside _scheduleFrom")
-            elif a.attr == "starttime":
-                ctx.check(a.func in ("LoopingCall.start", "LoopingCall.reset") and _clock_read(v), "who-may-write/starttime", key,
-                          "starttime (the origin of all boundaries) is written outside start/reset or not from the clock")
-            elif a.attr == "interval":
-                ctx.check(a.func == "LoopingCall.start" and isinstance(v, ast.Name) and v.id in [x.arg for x in f_start.args.args], "who-may-write/interval", key,
-                          "interval written outside start() or not from its argument")
-        if not pairs:
-            ctx.violation("who-may-write/" + a.attr, key, f"unexpected {a.kind} of self.{a.attr}")
-    ctx.floor("who-may-write", len(acc), 8)
+    with section(ctx, 'who may write the state'):
+        acc = class_accesses(mod, cls, {"running", "_deferred", "call", "starttime", "interval"}, receivers={"self"})
+        for a in acc:
+            if a.via_alias:
+                continue  # `x = self.attr; x -= 1` rebinds the local, not the attribute (scalars)
+            key = ctx.construct(f"twisted.internet.task.{a.func}", a.node)
+            pairs = [(t, v) for t, v in assign_pairs(a.node) if self_attr(t, a.attr)]
+            for t, v in pairs:
+                if a.attr == "running":
+                    if is_const(v, True):
+                        ctx.check(a.func == "LoopingCall.start", "who-may-write/running", key, "running set True outside start()")
+                    elif is_const(v, False):
+                        ctx.check(a.func == "LoopingCall.stop" or f"{a.func}" in eb_quals, "who-may-write/running", key,
+                                  "running cleared outside stop() / the failure callback")
+                    else:
+                        ctx.violation("who-may-write/running", key, "running assigned a non-constant")
+                elif a.attr == "_deferred":
+                    if is_const(v, None):
+                        ctx.check(a.func == "LoopingCall.stop" or a.func in cb_quals or a.func in eb_quals, "who-may-write/_deferred", key,
+                                  "start()'s Deferred dropped outside the firing functions (it would never fire)")
+                    else:
+                        ctx.check(a.func == "LoopingCall.start", "who-may-write/_deferred", key, "start()'s Deferred replaced outside start()")
+                elif a.attr == "call":
+                    if is_const(v, None):
+                        ctx.check(a.func in ("LoopingCall.__call__", "LoopingCall.stop", "LoopingCall.reset"), "who-may-write/call", key,
+                                  "self.call cleared in an unexpected place (the pending call could no longer be cancelled)")
+                    else:
+                        ctx.check(a.func == "LoopingCall._scheduleFrom", "who-may-write/call", key, "self.call assigned outside _scheduleFrom")
+                elif a.attr == "starttime":
+                    ctx.check(a.func in ("LoopingCall.start", "LoopingCall.reset") and _clock_read(v), "who-may-write/starttime", key,
+                              "starttime (the origin of all boundaries) is written outside start/reset or not from the clock")
+                elif a.attr == "interval":
+                    ctx.check(a.func == "LoopingCall.start" and isinstance(v, ast.Name) and v.id in [x.arg for x in f_start.args.args], "who-may-write/interval", key,
+                              "interval written outside start() or not from its argument")
+            if not pairs:
+                ctx.violation("who-may-write/" + a.attr, key, f"unexpected {a.kind} of self.{a.attr}")
+        ctx.floor("who-may-write", len(acc), 8)
 
     # ---- start(): state complete before the first call, returns the stored Deferred ----------------------------
-    g = ctx.cfg(f_start)
-    qs_ = f"{Q}.start"
-    launch = gfind(g, lambda x: _is_call_to(x, "self._scheduleFrom") or (isinstance(x, ast.Call) and isinstance(x.func, ast.Name) and x.func.id == "self"))
-    ctx.need(launch, "start() launches the loop")
-    for attr in ("running", "_deferred", "starttime", "interval", "_runAtStart"):
-        defs = g.ids(lambda n: n.kind == "stmt" and any(self_attr(t, attr) for t, v in assign_pairs(n.ast)))
-        w = g.must_precede(defs, launch) if defs else [g.entry]
-        ctx.check(bool(defs) and w is None, "start/state-before-first-call", f"{qs_} | self.{attr}",
-                  f"self.{attr} is not set before the first call / scheduling (the completion callback and the delay arithmetic read it)",
-                  witness=g.describe(w))
-    rets = g.ids(lambda n: n.kind == "stmt" and isinstance(n.ast, ast.Return))
-    ctx.need(rets, "return in start()")
-    for r in rets:
-        v = g.node(r).ast.value
-        ok = False
-        if isinstance(v, ast.Name):
-            for st in body_walk(f_start):
-                ps = assign_pairs(st)
-                tv = [val for t, val in ps if isinstance(t, ast.Name) and t.id == v.id]
-                dv = [val for t, val in ps if self_attr(t, "_deferred")]
-                if tv and dv and tv[0] is dv[0]:
-                    ok = True
-                if dv and isinstance(dv[0], ast.Name) and dv[0].id == v.id:
-                    ok = True
-        ctx.check(ok, "start/returns-stored-deferred", ctx.construct(qs_, g.node(r).ast),
-                  "start() re-reads self._deferred for its result: when f fails (or stops the loop) synchronously the attribute is already None")
+    with section(ctx, 'start(): state complete before the first call, returns the stored Deferred'):
+        g = ctx.cfg(f_start)
+        qs_ = f"{Q}.start"
+        launch = gfind(g, lambda x: _is_call_to(x, "self._scheduleFrom") or (isinstance(x, ast.Call) and isinstance(x.func, ast.Name) and x.func.id == "self"))
+        ctx.need(launch, "start() launches the loop")
+        for attr in ("running", "_deferred", "starttime", "interval", "_runAtStart"):
+            defs = g.ids(lambda n: n.kind == "stmt" and any(self_attr(t, attr) for t, v in assign_pairs(n.ast)))
+            w = g.must_precede(defs, launch) if defs else [g.entry]
+            ctx.check(bool(defs) and w is None, "start/state-before-first-call", f"{qs_} | self.{attr}",
+                      f"self.{attr} is not set before the first call / scheduling (the completion callback and the delay arithmetic read it)",
+                      witness=g.describe(w))
+        rets = g.ids(lambda n: n.kind == "stmt" and isinstance(n.ast, ast.Return))
+        ctx.need(rets, "return in start()")
+        for r in rets:
+            v = g.node(r).ast.value
+            ok = False
+            if isinstance(v, ast.Name):
+                for st in body_walk(f_start):
+                    ps = assign_pairs(st)
+                    tv = [val for t, val in ps if isinstance(t, ast.Name) and t.id == v.id]
+                    dv = [val for t, val in ps if self_attr(t, "_deferred")]
+                    if tv and dv and tv[0] is dv[0]:
+                        ok = True
+                    if dv and isinstance(dv[0], ast.Name) and dv[0].id == v.id:
+                        ok = True
+            ctx.check(ok, "start/returns-stored-deferred", ctx.construct(qs_, g.node(r).ast),
+                      "start() re-reads self._deferred for its result: when f fails (or stops the loop) synchronously the attribute is already None")
 
     # ---- (c) finite-domain evaluation of the delay and of the skip counter ---------------------------------------
-    _eval_schedule(ctx, f_sched, meths)
-    _eval_counter(ctx, f_wc, meths)
+    with section(ctx, '(c) finite-domain evaluation of the delay and of the skip counter'):
+        _eval_schedule(ctx, f_sched, meths)
+
+    with section(ctx, "(c) finite-domain evaluation of the skip counter"):
+        _eval_counter(ctx, f_wc, meths)
 
 
 def _eval_schedule(ctx, f_sched, meths):
@@ -418,9 +437,6 @@ def _eval_schedule(ctx, f_sched, meths):
         try:
             it.call_function(f_sched, [when], bind_self=True)
         except EvalUnsupported as e:
-            if ctx.unlisted():
-                ctx.note(f"delay evaluation skipped (outside the evaluable subset: {e}); structural violations already reported")
-                return
             raise AnalysisError(f"C10: _scheduleFrom is outside the evaluable subset: {e}")
         except EvalAssert as e:
             bad = bad or (interval, start, when, f"assert {e} fails")
@@ -465,9 +481,12 @@ def _eval_counter(ctx, f_wc, meths):
     for interval in (0.5, 1.0, 1.5, 0):
         for start in (0.0, 10.25):
             for ras in (True, False):
-                for pat in patterns:
+                # (first-call lateness in intervals, pattern): the very first invocation may happen on time or k >= 2
+                # intervals after start() (clock jump before the first scheduled call / a blocked reactor), for now=True and now=False
+                histories = [(first, pat) for pat in patterns for first in ((0.0 if ras else 1.0), 2.0, 3.5, 7.25)]
+                for first, pat in histories:
                     sr = SelfRef({"interval": interval, "starttime": start, "_runAtStart": ras, "_realLastTime": None})
-                    now = [start if ras else start + interval]
+                    now = [start + first * (interval or 1.0)]
                     got = []
                     it = Interp(sr, meths, {"self.clock.seconds": lambda now=now: now[0], cb_name: lambda c, got=got: got.append(c)},
                                 self_names=tuple(self_names))
@@ -480,9 +499,6 @@ def _eval_counter(ctx, f_wc, meths):
                             it.budget = 4000
                             it.call_function(counter, [])
                         except EvalUnsupported as e:
-                            if ctx.unlisted():
-                                ctx.note(f"counter evaluation skipped (outside the evaluable subset: {e}); structural violations already reported")
-                                return
                             raise AnalysisError(f"C10: withCount counter is outside the evaluable subset: {e}")
                         except EvalAssert as e:
                             bad = bad or (interval, start, ras, now[0], f"assert {e} fails")
@@ -527,6 +543,11 @@ MUTANTS = [
     Mutant("count-boundary-off-by-one", TASK, "            if count > 0:\n                self._realLastTime = now\n", "            if count > 1:\n                self._realLastTime = now\n",
            expect_rule="count/sum-equals-boundaries"),
     Mutant("count-forgets-immediate-call", TASK, "                    lastTime -= self.interval\n", "                    pass\n",
+           expect_rule="count/sum-equals-boundaries"),
+    Mutant("first-count-measured-from-now", TASK,
+           "                lastTime = self.starttime\n                if self._runAtStart:\n                    assert (\n                        self.interval is not None\n"
+           "                    ), \"Looping call called with None interval\"\n                    lastTime -= self.interval\n",
+           "                assert self.interval is not None\n                lastTime = now - self.interval\n",
            expect_rule="count/sum-equals-boundaries"),
     Mutant("start-returns-attribute", TASK, "            self._scheduleFrom(self.starttime)\n        return deferred\n",
            "            self._scheduleFrom(self.starttime)\n        return self._deferred\n", expect_rule="start/returns-stored-deferred"),
